@@ -364,7 +364,7 @@ func (t *distributedPlan) Schema() logical.Schema {
 }
 
 func (t *distributedPlan) Limit(maxVal int) {
-	t.maxDataPointsSize = uint32(maxVal)
+	t.maxDataPointsSize = logical.SaturatingUint32(maxVal)
 }
 
 var _ sort.Comparable = (*comparableDataPoint)(nil)
